@@ -293,9 +293,16 @@ func (s *Stack) EnvMap() map[string]any {
 		}
 	}
 
-	// Also include struct fields from rootData (if available)
+	// Also include struct fields from rootData (if available). Like Lookup, the
+	// root data is only a fallback: it never overrides a binding on the stack.
 	if s.rootData != nil {
-		ireflect.PopulateStructFields(result, s.rootData)
+		fields := make(map[string]any)
+		ireflect.PopulateStructFields(fields, s.rootData)
+		for k, v := range fields {
+			if _, bound := result[k]; !bound {
+				result[k] = v
+			}
+		}
 	}
 	return result
 }
